@@ -6,7 +6,8 @@ EXTENDS Cli, Json
 CONSTANTS Derives, Emit
 VARIABLE s
 
-Init == \E i \in InputKinds, o \in OutKinds, p \in {"quick-xml-de", "serde-xml-rs"}, d \in Derives, so \in {"unsorted", "name"} :
+Init == \E i \in InputKinds, o \in OutKinds, p \in {"quick-xml-de", "serde-xml-rs", "ABSENT"}, d \in Derives \cup {AbsentDerive},
+             so \in {"unsorted", "name", "ABSENT"} :
            s = Start(i, o, p, d, so)
 Next == ~Terminal(s) /\ s' = Step(s)
 Spec == Init /\ [][Next]_s /\ WF_s(Next)
